@@ -292,6 +292,14 @@ func TestC09(t *testing.T) {
 	}})
 }
 
+// TestC09Preempt: the reservation oracles over the directed preemption scenario (queue preemption reserves the node of its
+// victims for the asking ask, which may already hold a reservation elsewhere: the reservation moves).
+func TestC09Preempt(t *testing.T) {
+	runWorld(t, worldCheck{prop: "C09", check: "C09/preempt", profile: preemptionProfile, prologue: preemptionPrologue, nonTriv: func(w *harness.World) bool {
+		return w.Tags["reservation-made"] > 0 && w.Tags["preemption-queue"] > 0
+	}})
+}
+
 func TestC10(t *testing.T) {
 	runWorld(t, worldCheck{prop: "C10", check: "C10/world", profile: churnAppsProfile, nonTriv: func(w *harness.World) bool {
 		return w.Tags["app-4-states"] > 0
